@@ -12,7 +12,7 @@ use crate::error::{ErrorReported, ErrorFlag, GatherErrorIteratorExt};
 use crate::game::{Game, LanguageKey};
 use crate::ident::{Ident, ResIdent};
 use crate::value::{ScalarType, ScalarValue, ReadType, VarType};
-use crate::llir::{self, ReadInstr, RawInstr, RawScript, InstrFormat, LanguageHooks, DecompileOptions, RegisterEncodingStyle, HowBadIsIt};
+use crate::llir::{self, ReadInstr, RawInstr, RawScript, InstrFormat, LanguageHooks, DecompileOptions, RegisterEncodingStyle, HowBadIsIt, fit_instr_field};
 use crate::resolve::{RegId, DefId, IdMap};
 use crate::context::CompilerContext;
 use crate::context::defs::auto_enum_names;
@@ -1135,10 +1135,10 @@ impl InstrFormat for OldeEclHooks {
         }
     }
 
-    fn write_instr(&self, f: &mut BinWriter, _: &dyn Emitter, instr: &RawInstr) -> WriteResult {
+    fn write_instr(&self, f: &mut BinWriter, emitter: &dyn Emitter, instr: &RawInstr) -> WriteResult {
         f.write_i32(instr.time)?;
         f.write_u16(instr.opcode)?;
-        f.write_i16(self.instr_size(instr) as _)?;
+        f.write_i16(fit_instr_field(emitter, "size", self.instr_size(instr) as i64)?)?;
 
         f.write_u8(0)?;
         f.write_u8(instr.difficulty)?;
@@ -1205,11 +1205,11 @@ impl InstrFormat for TimelineFormat06 {
         Ok(ReadInstr::Instr(instr))
     }
 
-    fn write_instr(&self, f: &mut BinWriter, _: &dyn Emitter, instr: &RawInstr) -> WriteResult {
-        f.write_i16(instr.time as _)?;
+    fn write_instr(&self, f: &mut BinWriter, emitter: &dyn Emitter, instr: &RawInstr) -> WriteResult {
+        f.write_i16(fit_instr_field(emitter, "time", instr.time)?)?;
         f.write_i16(instr.extra_arg.unwrap_or(0) as _)?;
         f.write_u16(instr.opcode)?;
-        f.write_u16(self.instr_size(instr) as _)?;
+        f.write_u16(fit_instr_field(emitter, "size", self.instr_size(instr) as i64)?)?;
         f.write_all(&instr.args_blob)?;
         Ok(())
     }
@@ -1246,10 +1246,10 @@ impl InstrFormat for TimelineFormat08 {
         Ok(ReadInstr::Instr(instr))
     }
 
-    fn write_instr(&self, f: &mut BinWriter, _: &dyn Emitter, instr: &RawInstr) -> WriteResult {
+    fn write_instr(&self, f: &mut BinWriter, emitter: &dyn Emitter, instr: &RawInstr) -> WriteResult {
         f.write_i32(instr.time as _)?;
         f.write_u16(instr.opcode)?;
-        f.write_u8(self.instr_size(instr) as _)?;
+        f.write_u8(fit_instr_field(emitter, "size", self.instr_size(instr) as i64)?)?;
         f.write_u8(instr.difficulty as _)?;
         f.write_all(&instr.args_blob)?;
         Ok(())
